@@ -81,6 +81,7 @@ def run_scenario(case, layer):
     dt_ivs = case.get('dt_intervals') or [rng.choice([None, None, None, None, 0.001, 0.005, 0.02]) for _ in range(n)]
     rxp = case.get('rxp', random.Random(case['seed'] ^ 0x5A17).random() < 0.15)
     rx_holds = [0]
+    hold_logs = collections.defaultdict(list)     # stack index -> (t0, t1, function, line) of every injected hold of its receive thread
     eps = []
     senders = []
     triggers = collections.defaultdict(list)      # listener key -> chained submissions waiting for a delivery at that listener
@@ -111,7 +112,7 @@ def run_scenario(case, layer):
             # thread of the same stack is made to run (one-shot timer due in the middle of the hold)
             holder = []
             kw['rx_thread'] = True
-            kw['rx_trace'] = preempt.random_tracer(sim, case['seed'] ^ (0x77 + i), p=0.003, holds=(0.0002, 0.001, 0.003), counter=rx_holds,
+            kw['rx_trace'] = preempt.random_tracer(sim, case['seed'] ^ (0x77 + i), p=0.003, holds=(0.0002, 0.001, 0.003), counter=rx_holds, log=hold_logs[i],
                                                    kick=lambda h, _h=holder: _h[0].ecu.add_timer(h / 2, lambda cookie: False))
         node = W.stack('N%d' % i, **kw)
         if rxp:
@@ -305,8 +306,14 @@ def run_scenario(case, layer):
         mode = 'bam' if da == 255 else 'cmdt'
         # sessions of this originator that were open on the bus at submission time
         me = 'N%d' % eps[m['src']]['stack']
+        # a session that has ended on the bus is still the stack's until its threads have had time to see the last frame and release it:
+        # 20 ms of their own time, i.e. not counting the time the harness kept them blocked in a slow send call or parked at a source line
+        blocked = [(a, b) for (a, b) in W.stacks[eps[m['src']]['stack']].slow_log] + [(h[0], h[1]) for h in hold_logs[eps[m['src']]['stack']]]
+
+        def stolen(t0, t1):
+            return sum(max(0.0, min(b, t1) - max(a, t0)) for (a, b) in blocked)
         open_now = [s for s in sn.sessions if s.src == me and s.mode == mode and s.t_open <= m['t_sub'] + 1e-9
-                    and (s.t_close is None or s.t_close >= m['t_sub'] - 0.02)]
+                    and (s.t_close is None or s.t_close >= m['t_sub'] - 0.02 - stolen(s.t_close, m['t_sub']))]
         if fd:
             cap = 4 if mode == 'bam' else 8
             if len(open_now) < cap:
